@@ -102,6 +102,7 @@ func extractGoroutineProg(file string) ([]string, string) {
 	}
 	var defers []string
 	var body []string
+	flag := ""
 	for _, st := range lits[0].Body.List {
 		switch s := st.(type) {
 		case *ast.DeferStmt:
@@ -124,6 +125,24 @@ func extractGoroutineProg(file string) ([]string, string) {
 				return nil, "a statement of another shape in the goroutine"
 			}
 			body = append(body, "GRun")
+		case *ast.AssignStmt:
+			// a completion flag for the recover handler (`flag := false` before the tool is run, `flag = true`
+			// after it): no effect on the order of the steps
+			if len(s.Lhs) != 1 || len(s.Rhs) != 1 {
+				return nil, "a statement of another shape in the goroutine"
+			}
+			id, ok := s.Lhs[0].(*ast.Ident)
+			rhs, ok2 := s.Rhs[0].(*ast.Ident)
+			if !ok || !ok2 {
+				return nil, "a statement of another shape in the goroutine"
+			}
+			switch {
+			case s.Tok == token.DEFINE && len(body) == 0 && flag == "" && rhs.Name == "false":
+				flag = id.Name
+			case s.Tok == token.ASSIGN && len(body) == 1 && flag != "" && id.Name == flag && rhs.Name == "true":
+			default:
+				return nil, "a statement of another shape in the goroutine"
+			}
 		default:
 			return nil, "a statement of another shape in the goroutine"
 		}
